@@ -24,6 +24,7 @@ import (
 	"time"
 
 	app "github.com/Dash-Industry-Forum/livesim2/cmd/cmaf-ingest-receiver/app"
+	"github.com/Eyevinn/dash-mpd/mpd"
 	"github.com/Eyevinn/mp4ff/mp4"
 )
 
@@ -53,6 +54,14 @@ type Scenario struct {
 	// held while segment 4 is sent (the channel goroutine stops at its next MPD) and segment 5 of all tracks is
 	// sent concurrently, so that more messages are outstanding than the channel's queue holds; then released
 	Backlog bool `json:"backlog,omitempty"`
+	// Feed > 0: every channel is fed that many segment numbers (all tracks per number), all channels at the same
+	// time number by number; after every number each channel's timeline MPD is read (MPDTrace)
+	Feed int `json:"feed,omitempty"`
+	// Restart: a first receiver stores the first half of the tracks (init and segment 1, authorised); a second
+	// receiver on the same storage then gets, per track concurrently, a request without credentials followed by the
+	// authorised uploads (restored tracks send media only, new tracks init and media); Raw: raw-segment mode
+	Restart bool `json:"restart,omitempty"`
+	Raw     bool `json:"raw,omitempty"`
 }
 
 type Outcome struct {
@@ -72,6 +81,36 @@ type Outcome struct {
 	// final per-track buffers (numbers) and latest published number of every channel
 	Buffers map[string]map[string][]uint32 `json:"buffers,omitempty"`
 	Latest  map[string]uint32              `json:"latest,omitempty"`
+	// Feed scenarios: per channel, the summary of manifest_timeline_nr.mpd after every number
+	MPDTrace map[string][]string `json:"mpd_trace,omitempty"`
+}
+
+// summary of a channel's timeline MPD: per adaptation set startNumber, first t and number of listed segments
+func mpdSummary(storage, chn string) string {
+	data, err := os.ReadFile(filepath.Join(storage, chn, "manifest_timeline_nr.mpd"))
+	if err != nil {
+		return "none"
+	}
+	m, err := mpd.MPDFromBytes(data)
+	if err != nil || len(m.Periods) != 1 {
+		return "not-a-complete-document"
+	}
+	out := ""
+	for _, as := range m.Periods[0].AdaptationSets {
+		if as.SegmentTemplate == nil || as.SegmentTemplate.SegmentTimeline == nil || as.SegmentTemplate.StartNumber == nil {
+			out += "[no-timeline]"
+			continue
+		}
+		n, t0 := 0, int64(-1)
+		for i, e := range as.SegmentTemplate.SegmentTimeline.S {
+			if i == 0 && e.T != nil {
+				t0 = int64(*e.T)
+			}
+			n += int(e.R) + 1
+		}
+		out += fmt.Sprintf("[start=%d t=%d n=%d reps=%d]", *as.SegmentTemplate.StartNumber, t0, n, len(as.Representations))
+	}
+	return out
 }
 
 // gate: the bodies of all uploads of a phase stop half-way until all of them have got there
@@ -190,6 +229,11 @@ func runOnce(si, round int, sc Scenario) Outcome {
 	if sc.Auth {
 		cfg.DefaultUser, cfg.DefaultPswd = "user", "secret"
 	}
+	if sc.Raw {
+		for _, chn := range sc.Channels {
+			cfg.Channels = append(cfg.Channels, app.ChannelConfig{Name: chn, ReceiveNrRawSegments: 3})
+		}
+	}
 	if sc.RepCfg {
 		for _, chn := range sc.Channels {
 			cc := app.ChannelConfig{Name: chn}
@@ -230,6 +274,87 @@ func runOnce(si, round int, sc Scenario) Outcome {
 		mu.Lock()
 		out.Statuses[strconv.Itoa(code)]++
 		mu.Unlock()
+	}
+	if sc.Feed > 0 {
+		out.MPDTrace = map[string][]string{}
+		for _, chn := range sc.Channels {
+			for _, tr := range sc.Tracks {
+				count(put(rcv.Router, fmt.Sprintf("/upload/%s/%s/init%s", chn, tr.Name, tr.Ext), inits[tr.Name], sc.Auth))
+			}
+		}
+		feedOne := func(k int, chn string, nr int) {
+			base := uint32(100 * (k + 1))
+			for _, tr := range sc.Tracks {
+				count(put(rcv.Router, fmt.Sprintf("/upload/%s/%s/%d%s", chn, tr.Name, base+uint32(nr), tr.Ext), segment(tr, base+uint32(nr)), sc.Auth))
+			}
+			rcv.Sync(chn)
+			sum := mpdSummary(storage, chn)
+			mu.Lock()
+			out.MPDTrace[chn] = append(out.MPDTrace[chn], sum)
+			mu.Unlock()
+		}
+		for nr := 1; nr <= sc.Feed; nr++ {
+			if sc.Sequential {
+				for k, chn := range sc.Channels {
+					feedOne(k, chn, nr)
+				}
+				continue
+			}
+			var fw sync.WaitGroup
+			go_ := make(chan struct{})
+			for k, chn := range sc.Channels {
+				fw.Add(1)
+				go func(k int, chn string) {
+					defer fw.Done()
+					<-go_
+					feedOne(k, chn, nr)
+				}(k, chn)
+			}
+			close(go_)
+			fw.Wait()
+		}
+	}
+	if sc.Restart {
+		chn := sc.Channels[0]
+		half := (len(sc.Tracks) + 1) / 2
+		for _, tr := range sc.Tracks[:half] { // the earlier run that left its files
+			count(put(rcv.Router, fmt.Sprintf("/upload/%s/%s/init%s", chn, tr.Name, tr.Ext), inits[tr.Name], true))
+			count(put(rcv.Router, fmt.Sprintf("/upload/%s/%s/1%s", chn, tr.Name, tr.Ext), segs[tr.Name], true))
+		}
+		rcv.Sync(chn)
+		cancel()
+		for i := 0; i < 2000 && channelGoroutines() > before; i++ {
+			time.Sleep(time.Millisecond)
+		}
+		ctx, cancel = context.WithCancel(context.Background())
+		rcv, err = app.VerifNewReceiver(ctx, storage, "/upload", 30, cfg) // the restarted receiver
+		if err != nil {
+			panic(err)
+		}
+		one := func(i int, tr Track) {
+			seg2 := segment(tr, 2)
+			count(put(rcv.Router, fmt.Sprintf("/upload/%s/%s/2%s", chn, tr.Name, tr.Ext), seg2, false)) // no credentials
+			if i >= half {
+				count(put(rcv.Router, fmt.Sprintf("/upload/%s/%s/init%s", chn, tr.Name, tr.Ext), inits[tr.Name], true))
+			}
+			count(put(rcv.Router, fmt.Sprintf("/upload/%s/%s/2%s", chn, tr.Name, tr.Ext), seg2, true))
+		}
+		var rw sync.WaitGroup
+		go_ := make(chan struct{})
+		for i, tr := range sc.Tracks {
+			if sc.Sequential {
+				one(i, tr)
+				continue
+			}
+			rw.Add(1)
+			go func(i int, tr Track) {
+				defer rw.Done()
+				<-go_
+				one(i, tr)
+			}(i, tr)
+		}
+		close(go_)
+		rw.Wait()
 	}
 	if sc.Backlog {
 		chn := sc.Channels[0]
@@ -289,7 +414,7 @@ func runOnce(si, round int, sc Scenario) Outcome {
 		mu.Unlock()
 	}
 	for _, chn := range sc.Channels {
-		if sc.Backlog {
+		if sc.Backlog || sc.Feed > 0 || sc.Restart {
 			break
 		}
 		for _, tr := range sc.Tracks {
